@@ -15,13 +15,14 @@ def run(rep):
     rep.assumptions += ['schedule invariant as in C06; the mass-matrix strategy A is an oracle with the contract {update_estimators: +1 on both estimators iff the draw is good; switch: foreground := background, background := empty}; that contract is checked on the real strategies below',
                         'A::adapt may or may not report a change (both explored); Strategy::init (step-size search) is the environment', 'exact reals; round() satisfies |round(x)-x| <= 1/2 and is integral']
     rep.outside += ['what the estimators compute from a window (C08)', 'flow / external adaptation']
-    s = z3.Solver(); s.set('timeout', 120000)
+    s = z3.Solver(); s.set('timeout', 30000)
     I = z3.Int; R = z3.Real
     draw, nt, fw, ee = I('draw'), I('num_tune'), I('final_window'), I('early_end')
     for method in METHODS:
         t0 = time.time(); q = AdaptQuery(mir, L, method, True); outs = q.run(); rep.paths += len(outs); rep.absorb_vm(q.vm); A = q.A
         def sat(cs):
             s.push(); s.add(*cs); s.add(*A.lemmas); r = s.check(); md = s.model() if r == z3.sat else None; s.pop()
+            if r == z3.unknown: r, md = rep.solve(list(cs) + list(A.lemmas))      # the incremental solver gave up: fresh solvers, other seeds
             if r == z3.unknown: rep.unknown('C09 solver unknown')
             return (r == z3.sat), md
         # reference schedule (from the property statement), over the pre-state
